@@ -172,15 +172,17 @@ def bindSem (p : Prog) (ti : Nat) (opt : Nat) (pos : Nat) (s0 : Sem) : Res :=
       else .err pos (str "invalid bind target and selector :0x" ++ padLeft 2 32 (hexLower opt))
   | none => .wrong
 
+/-- `print`: the topmost value is removed and written as a line. -/
+def printSem (s : Sem) : Res :=
+  match s.stack with
+  | v :: rest => .ok { s with stack := rest, out := .print (fmtValue v ++ str "\n") :: s.out }
+  | [] => .wrong
+
 mutual
 def evalS (p : Prog) : Stmt → Sem → Res
   | .var (some e) _, s => evalE p e s
   | .var none pos, s => pushV s .nil pos
-  | .print e _, s =>
-    (evalE p e s).bind fun s1 =>
-      match s1.stack with
-      | v :: rest => .ok { s1 with stack := rest, out := .print (fmtValue v ++ str "\n") :: s1.out }
-      | [] => .wrong
+  | .print e _, s => (evalE p e s).bind printSem
   | .eval e _, s => (evalE p e s).bind (popSem 1)
   | .block ti ni openPos body npop closePos, s =>
     if s.blocks.length = blockStackSize then .err openPos (str "blocks nested too deep")
